@@ -385,6 +385,8 @@ def rule_critical(ctx: Ctx) -> None:
 
 
 def run(ctx: Ctx) -> None:
+    from rules import generic as _G
+    ctx.run(_G.rule_arity, ("perception_eval.evaluation.result", "perception_eval.evaluation.matching", "perception_eval.manager"), "R-ARITY", 60)
     ctx.run(rule_status)
     ctx.run(rule_correct)
     ctx.run(rule_positive)
